@@ -9,8 +9,11 @@ import (
 	"go/types"
 	"path/filepath"
 	"reflect"
+	"sort"
 	"strings"
 	"time"
+
+	"golang.org/x/tools/go/ssa"
 )
 
 // Property definitions: which functions are under contract for each property, which obligation
@@ -31,6 +34,7 @@ type PropDef struct {
 	NeedObligations  bool
 	QuickTimeout     int
 	Exclude          []string // functions not part of this property (regexps)
+	Level            string   // evidence level when everything is discharged (default "proof")
 }
 
 func kinds(ks ...string) map[string]bool {
@@ -326,6 +330,30 @@ func init() {
 		},
 		LevelNote: "Proved for all six etypes, every key, usage and byte string: DecryptMessage returns without error only if the input is at least a confounder plus a MAC long and the MAC it carries equals the RFC MAC - HMAC(Ki, decrypted body) truncated at the end (RFC 3961 5.3 / RFC 3962), HMAC(Ki, IV | ciphertext body) truncated (RFC 8009), leading HMAC-MD5(K2, decrypted body) (RFC 4757) - computed with the keys derived from the presented key and usage; on every error no plaintext is returned (length 0). VerifyIntegrity of each family returns true only under that equality.",
 	}
+	props["C20"] = &PropDef{
+		Level: "other", // an exact type-level decision, not a solver-discharged proof
+		Funcs: []string{
+			`(*messages.Ticket).Marshal`, `(*messages.KRBPriv).Marshal`, `(*messages.APReq).Marshal`,
+		},
+		Kinds:            kinds(append([]string{"label", "bounded"}, contractKinds...)...),
+		NeedObligations:  false,
+		QuickTimeout:     20,
+		Extra: func(cc *checkCtx) []*Obligation {
+			out := cc.labelCheck()
+			out = append(out, cc.boundedTest("messages round trip", "messages", "roundtrip_test.go.txt", "^TestGowpBoundedRoundTrip$",
+				"wire encodings: 300 (thorough: 5000) random tickets re-encoded after their enc-part was decrypted contain no octet run of the decrypted session key and reproduce the original bytes (shared with C13)")...)
+			return out
+		},
+		Assumptions: []string{
+			"the label source table: EncryptionKey.KeyValue (every long-term key, session key and subkey in the library is an EncryptionKey) and Credentials.password (secretFields in gowp/props.go); a secret copied into a plain []byte or string variable loses its label (type-level, flow-insensitive)",
+			"the sink table: the fmt / log formatting functions, krberror.Errorf / NewErrorf, Client.Log, SPNEGO.Log and the SPNEGO response helpers, encoding/json.Marshal / MarshalIndent (fmtSinks / jsonSinks); fmt prints every field reachable from an operand, encoding/json only exported fields not tagged json:\"-\"",
+		},
+		NotDecided: []string{
+			"flows of key octets that were first copied into untyped byte slices or strings (for example keytab reader errors formatting the raw input), hex / base64 re-encodings, and text produced by dependencies",
+			"'specified to carry them only encrypted' for every message type: decided for Ticket / AP-REQ by the bounded re-encoding stand-in (and the fix: commit that made it hold), not proved",
+		},
+		LevelNote: "Decided exactly over the current source (one label obligation per operand): no value handed to a formatting, logging or error-text function anywhere in the library, and no value handed to encoding/json, has a static type from which a field holding key material or a password is reachable the way that sink prints it (fmt: all fields; json: exported fields without json:\"-\"). Bounded stand-in: re-encoded tickets never contain the decrypted session key.",
+	}
 	props["C17"] = &PropDef{
 		Funcs: []string{
 			`(*gssapi.WrapToken).Marshal`, `(*gssapi.WrapToken).Unmarshal`, `(*gssapi.WrapToken).computeCheckSum`, `(*gssapi.WrapToken).Verify`,
@@ -580,6 +608,164 @@ func (cc *checkCtx) asn1TableCheck() []*Obligation {
 				mk(tn+"."+st.Field(i).Name(), "tagged field is in the RFC table", false, "field carries a context tag but is not in the RFC table")
 			}
 		}
+	}
+	return out
+}
+
+// ---------- C20: secrets do not flow into formatted text or JSON (type-level labels) ----------
+
+// secretFields: the fields that hold key material or passwords (the label source table).
+var secretFields = map[string]string{
+	"types.EncryptionKey.KeyValue":     "key octets (long-term keys, session keys and subkeys are all of this type)",
+	"credentials.Credentials.password": "password",
+}
+
+// secretPath returns a field path to a secret reachable from a value of type t the way fmt's %v / %+v / %s would
+// print it (every field, exported or not, through pointers, slices, arrays and maps), or "" if none. json=true
+// follows encoding/json instead: exported fields only, fields tagged json:"-" skipped.
+func secretPath(t types.Type, json bool, seen map[string]bool, depth int) string {
+	t = types.Unalias(t)
+	k := typeKey(t)
+	if seen[k] || depth > 12 {
+		return ""
+	}
+	seen[k] = true
+	defer delete(seen, k)
+	if isTimeType(t) {
+		return ""
+	}
+	switch u := t.Underlying().(type) {
+	case *types.Pointer:
+		return secretPath(u.Elem(), json, seen, depth+1)
+	case *types.Slice:
+		return secretPath(u.Elem(), json, seen, depth+1)
+	case *types.Array:
+		return secretPath(u.Elem(), json, seen, depth+1)
+	case *types.Map:
+		if p := secretPath(u.Elem(), json, seen, depth+1); p != "" {
+			return p
+		}
+		return secretPath(u.Key(), json, seen, depth+1)
+	case *types.Struct:
+		tn := shortName(types.TypeString(t, nil))
+		for i := 0; i < u.NumFields(); i++ {
+			f := u.Field(i)
+			if json {
+				if !f.Exported() || reflect.StructTag(u.Tag(i)).Get("json") == "-" {
+					continue
+				}
+			}
+			if what, ok := secretFields[tn+"."+f.Name()]; ok {
+				return tn + "." + f.Name() + " (" + what + ")"
+			}
+			if p := secretPath(f.Type(), json, seen, depth+1); p != "" {
+				return tn + "." + f.Name() + " -> " + p
+			}
+		}
+	}
+	return ""
+}
+
+var fmtSinks = map[string]int{ // function -> index of the first formatted / printed operand
+	"fmt.Errorf": 1, "fmt.Sprintf": 1, "fmt.Printf": 1, "fmt.Fprintf": 2, "fmt.Sprint": 0, "fmt.Sprintln": 0, "fmt.Fprint": 1, "fmt.Fprintln": 1, "fmt.Println": 0, "fmt.Print": 0,
+	"log.Printf": 1, "log.Println": 0, "log.Print": 0, "log.Fatalf": 1, "log.Fatal": 0,
+	"(*log.Logger).Printf": 2, "(*log.Logger).Println": 1, "(*log.Logger).Print": 1, "(*log.Logger).Fatalf": 2,
+	"krberror.Errorf": 3, "krberror.NewErrorf": 2, "(*client.Client).Log": 2, "(*spnego.SPNEGO).Log": 2,
+	"spnego.spnegoNegotiateKRB5MechType": 3, "spnego.spnegoResponseReject": 3, "spnego.spnegoResponseAcceptCompleted": 3, "spnego.spnegoInternalServerError": 3,
+}
+
+var jsonSinks = map[string]bool{"encoding/json.Marshal": true, "encoding/json.MarshalIndent": true}
+
+// labelCheck: one obligation per operand handed to a formatting / logging / JSON sink anywhere in the library:
+// its static type must not reach a secret field (exact decision over go/ssa and go/types; kind "label").
+func (cc *checkCtx) labelCheck() []*Obligation {
+	var out []*Obligation
+	n := map[string]int{}
+	var names []string
+	for name := range cc.P.Funcs {
+		names = append(names, name)
+	}
+	sort.Strings(names)
+	for _, name := range names {
+		f := cc.P.Funcs[name]
+		if f == nil || !inRepo(f) || len(f.Blocks) == 0 {
+			continue
+		}
+		file := cc.P.Fset.Position(f.Pos()).Filename
+		if strings.HasSuffix(file, "_test.go") || strings.Contains(file, "/examples/") || strings.Contains(file, "/test/") {
+			continue
+		}
+		for _, b := range f.Blocks {
+			for _, in := range b.Instrs {
+				ci, ok := in.(ssa.CallInstruction)
+				if !ok {
+					continue
+				}
+				c := ci.Common()
+				callee := c.StaticCallee()
+				if callee == nil {
+					continue
+				}
+				cn := fnName(callee)
+				first, isFmt := fmtSinks[cn]
+				if !isFmt && !jsonSinks[cn] {
+					continue
+				}
+				args := c.Args
+				var ops []ssa.Value
+				if isFmt {
+					// operands: the explicit ones from index first, variadic ones unpacked from the slice literal
+					for i := first; i < len(args); i++ {
+						ops = append(ops, variadicElems(args[i])...)
+					}
+				} else {
+					ops = append(ops, args[0])
+				}
+				for _, op := range ops {
+					t := op.Type()
+					if mi, ok := op.(*ssa.MakeInterface); ok {
+						t = mi.X.Type()
+					}
+					path := secretPath(t, !isFmt, map[string]bool{}, 0)
+					key := name + "#label:" + cn
+					n[key]++
+					o := &Obligation{Fn: name, Name: fmt.Sprintf("%s[%d]", key, n[key]), Kind: "label", Status: "discharged", Solver: "labels",
+						Desc: fmt.Sprintf("operand of type %s handed to %s at %s reaches no secret field", shortName(types.TypeString(t, nil)), cn, cc.P.posString(in.Pos()))}
+					if path != "" {
+						o.Status, o.Raw = "failed", "secret reachable: "+path
+					}
+					out = append(out, o)
+				}
+			}
+		}
+	}
+	return out
+}
+
+// variadicElems: the values stored into the slice literal of a variadic call (or the value itself).
+func variadicElems(v ssa.Value) []ssa.Value {
+	sl, ok := v.(*ssa.Slice)
+	if !ok {
+		return []ssa.Value{v}
+	}
+	al, ok := sl.X.(*ssa.Alloc)
+	if !ok {
+		return []ssa.Value{v}
+	}
+	var out []ssa.Value
+	for _, r := range *al.Referrers() {
+		ia, ok := r.(*ssa.IndexAddr)
+		if !ok {
+			continue
+		}
+		for _, rr := range *ia.Referrers() {
+			if st, ok := rr.(*ssa.Store); ok {
+				out = append(out, st.Val)
+			}
+		}
+	}
+	if len(out) == 0 {
+		return []ssa.Value{v}
 	}
 	return out
 }
